@@ -204,7 +204,9 @@ def Stream.openBody (s : Stream) (k : Nat) (f : WireFrame) : Except Err (IV × B
     let parsed : Option (IV × Sealed) :=
       if s.decCtr = 0 then
         match f.body with
-        | .ct (some iv) c => some (iv, c)
+        | .ct (some iv) c =>
+          if iv = s.encIV then none      -- fix D16: a first frame announcing OUR base IV is a reflection
+          else some (iv, c)
         | _ => none            -- junk, or no IV where one is expected: cannot authenticate
       else
         match f.body with
